@@ -3,7 +3,7 @@
 EXTRA_BUILDS = {}
 
 HOOK_COMMITS = ["7bc0d60"]
-FIX_COMMITS = ["243874c", "428186b", "52f0108", "243864d", "8c765f6", "203eb57", "7f74090", "7540dfb", "68d683c", "7270b67"]
+FIX_COMMITS = ["243874c", "428186b", "52f0108", "243864d", "8c765f6", "203eb57", "7f74090", "7540dfb", "68d683c", "7270b67", "5166c8b", "ecda124", "339d430", "de0c013", "2ab1d79"]
 
 NOT_APPLICABLE = {}
 
@@ -129,9 +129,10 @@ CHECKS = {
         "legs": [
             {"name": "cache-model", "argv": ["c07"], "args": {"leg": "cache-model"}, "shards": 16},
             {"name": "engine", "argv": ["c07"], "args": {"leg": "engine"}, "shards": 16},
+            {"name": "schedule", "argv": ["c07"], "args": {"leg": "schedule"}, "shards": 16},
         ],
         "assumptions": COMMON_ASSUME + ["similarity (semantic) hits above the configured threshold are by design (DESIGN 7); over-invalidation is allowed",
-                                         "the searcher-vs-writer schedule leg lives in the concurrency machinery (see DESIGN)"],
+                                         "schedule leg: one searching thread against one writing thread (insert at the query / delete the best hit / overwrite it far away) under directed single pauses at lock events or seeded jitter; at quiescence a following search that hits the cache must be fresh"],
         "min_evaluations": 1000,
         "level_text": "reference-model runtime monitoring of the cache API over ~10^5 seeded histories per quick run plus an end-to-end write-log "
                       "oracle on the engine; exploration, not proof",
@@ -285,5 +286,65 @@ CHECKS = {
                       "BackupManager/RestoreManager; fault enumeration over sampled backup sets, not proof",
         "level_note": "S3 transport is not driven; PITR between timestamps needs wall-clock spacing and is thorough-only",
         "technique": "runtime monitoring: restore differential + single-fault injection on backup artefacts + closure invariant on retention",
+    },
+    "C05": {
+        "level": "exploration",
+        "rule": "one case = 2-3 client threads each running a seeded program of 2-4 operations (insert/overwrite, delete, query, query_with_source, "
+                "get_document_with_metadata, bulk_query, get_embedding_cache_aware) on 1-2 shared ids of a TieredEngine (tiny recent-write-tier "
+                "limits and document caches, optional persistence), after a sequential prefix that populates caches and mirrors; every write "
+                "carries a unique id encoded in the vector AND in the metadata; call/return events are stamped from one atomic counter at the "
+                "API boundary; schedules: directed single pause before a seeded lock event of one thread, double pauses, or seeded jitter at "
+                "every lock acquisition (lock events come from the instrumented lock_api). Oracles: no torn read (vector and metadata of one "
+                "read from the same write), no read of an unwritten value, and a Wing-Gong linearizability search of every key's sub-history "
+                "against a register-with-delete model (failed/unfinished ops stay open). distinct_nontrivial = distinct (programs, observed "
+                "per-key outcomes)",
+        "legs": [{"name": "linearizability", "argv": ["c05"], "shards": 16}],
+        "assumptions": COMMON_ASSUME + ["delete/insert boolean results are not part of the sequential specification", "interleavings finer than lock events and exhaustive preemption-bounded enumeration are out of reach",
+                                         "schedules are steered by pauses and jitter on free-running OS threads and are not exactly replayable; the recorded history is the witness"],
+        "min_evaluations": 1000,
+        "level_text": "linearizability checking of recorded concurrent histories of the real engine under directed delay injection at lock events; "
+                      "tens of thousands of short histories per run; exploration of schedules, not exhaustive",
+        "level_note": "trusted: the Wing-Gong checker and the monotonic event counter; the server's own handlers are not covered by this leg",
+        "technique": "runtime monitoring: recorded call/return histories + per-key linearizability checker + delay injection at lock events",
+    },
+    "C08": {
+        "level": "exploration",
+        "rule": "pair-sweep leg: catalogue of 26 API operations (insert, overwrite, delete, batch delete by ids / compilable filter / non-compilable "
+                "filter, metadata update, point / miss / bulk / with-metadata / cache-aware reads, exists, sync / ef / batch / timed search, forced "
+                "and threshold drain, bulk load, manual snapshot, stats, lifecycle stats, predictor swap, insert at the recent-write-tier hard "
+                "limit (emergency drain), insert into a full index (tombstone compaction)); for EVERY ordered pair (X,Y) X is parked before its "
+                "i-th lock event (quick: first/middle/last + 5 seeded; thorough: every i) while Y runs to completion or blocks, then X resumes; "
+                "plus a seeded double-pause and selected triples per pair. soak leg: 8 free-running threads x 120 random catalogue operations "
+                "with seeded jitter at lock acquisitions. A violation is ONLY a wait-for cycle reported by parking_lot's own deadlock detector "
+                "(with the blocked threads' engine frames); lock-order-graph cycles and recursive reads are harvested as candidates into the "
+                "evidence and never raise an alarm; a watchdog expiry without a reported cycle is inconclusive. distinct_nontrivial = distinct "
+                "(X, Y[, Z], pause point(s)) schedules",
+        "legs": [
+            {"name": "pair-sweep", "argv": ["c08"], "args": {"leg": "pair-sweep"}, "shards": 16, "timeout_q": 1800},
+            {"name": "soak", "argv": ["c08"], "args": {"leg": "soak"}, "shards": 4, "parallel": 4},
+        ],
+        "assumptions": COMMON_ASSUME + ["deadlocks that need more than 3 threads or waits on non-lock primitives are out of reach", "exhaustive enumeration up to a preemption bound is out of reach for this family"],
+        "min_evaluations": 1000,
+        "level_text": "directed delay injection at every lock event of every ordered operation pair on the real engine with the real lock "
+                      "implementation's wait-for-cycle detector as ground truth; exploration, not exhaustive model checking",
+        "level_note": "trusted: parking_lot's deadlock_detection feature; lock events are observed through a vendored lock_api with ~60 added lines",
+        "technique": "runtime monitoring: lock-event hooks, lock-order graph, directed pause sweeps, real deadlock detector",
+    },
+    "C09": {
+        "level": "exploration",
+        "rule": "one case = HnswBackend with persistence (capacity {4,6,8,large} forcing tombstone compaction, snapshot interval {1,2,3,large} so "
+                "writers trigger automatic snapshots, rotation at {64,128,256 B,large}, fsync Always in 1/4 of the cases) + 1-2 writer threads "
+                "(3-8 unique-valued puts / deletes / metadata merges / batch deletes on 2-5 keys) + a thread issuing 1-4 manual snapshots, under "
+                "single/double directed pauses at lock events or seeded jitter. After all calls returned: S at quiescence, every key's live "
+                "value is a value some writer issued for it with matching metadata, an acknowledged put without any delete is present, log "
+                "checker L on a copy of the directory, strict recovery of that copy equals the final live collection bit-exactly, S after "
+                "recovery. distinct_nontrivial = distinct (writer programs, configuration, schedule)",
+        "legs": [{"name": "snapshot-vs-writers", "argv": ["c09"], "shards": 16}],
+        "assumptions": COMMON_ASSUME + ["schedules are steered, not enumerated; not exactly replayable"],
+        "min_evaluations": 1000,
+        "level_text": "end-state differential (live vs recovered vs acknowledged set) of the real backend under directed delay injection between "
+                      "writers, automatic and manual snapshots, rotation and both compactions; exploration of schedules",
+        "level_note": "trusted: the crate's own readers used by L; interleavings finer than lock events are out of reach",
+        "technique": "runtime monitoring: end-state differential + invariant checkers under delay injection at lock events",
     },
 }
